@@ -19,7 +19,8 @@
 //    path must succeed (`assign-refused`; "values of all lengths", lengths 247..258 drawn densely). A third of the v-table
 //    assignments on the global store hands in a number: refused there, and a refusal must change nothing, including the existence
 //    answers (type-0 query) of every touched path, model key and prefix (`refused-assign-changed-existence`); an accepted number
-//    must read back as that number. Path walk == std::string split at the separator; rebuilt path == original string.
+//    must read back as that number. Two thirds of the views are opened from a path descriptor with off > 0 (remainder of a longer
+//    path after mpt_path_next). Path walk == std::string split at the separator; rebuilt path == original string.
 #include "vp.hpp"
 
 #include "mpt_c.hpp"
@@ -161,6 +162,23 @@ static std::string drawValue(Ctx &c, size_t max) {
 #endif
 static const bool kNumberOnRoot = C10_NUMBER_ON_ROOT;
 
+// a sub-tree view on the base path `bs`. lead > 0: the descriptor handed to mpt_config_global is the remainder of a longer
+// path ("zq.zq.<bs>") whose first `lead` elements were consumed with mpt_path_next, i.e. path.off > 0 (lead is derived
+// from values the case has drawn already, no draw of its own)
+static metatype *openView(Ctx &c, const std::string &bs, char sep, unsigned lead) {
+  std::string full;
+  for (unsigned i = 0; i < lead; i++) { full += "zq"; full += sep; }
+  full += bs;
+  CObj<path> bp;
+  setPath(bp, full, sep);
+  for (unsigned i = 0; i < lead; i++) {
+    int len = mpt_path_next(bp);
+    VP_CHECK(c, len == 2, "walk-element", "mpt_path_next over the leading element of a view path returns %d", len);
+  }
+  if (lead) { c.label("view:from-remainder"); VP_CHECK(c, bp->off == 3u * lead && bp->len == bs.size() + 1, "walk-element", "remainder of the view path has off %zu len %zu", bp->off, bp->len); }
+  return mpt_config_global(bp);  // copies what it needs
+}
+
 // ---- one configuration under test ----------------------------------------------------------------------------------
 struct Store {
   config *cfg = 0;     // interface of the whole store
@@ -225,11 +243,11 @@ static bool readKey(Ctx &c, Store &s, const Key &k, unsigned route, std::string 
       char rsep = n < k.size() ? sepFor(c, k, n) : '.';
       if (!bsep || !rsep) { how = "mpt_config_getp"; r = mpt_config_getp(s.cfg, p, 's', &text); break; }
       std::string bs = join(k, bsep, 0, n), rs = join(k, rsep, n);
-      CObj<path> bp, rp;
-      setPath(bp, bs, bsep);
-      how = "view(" + std::to_string(n) + " elements)";
+      CObj<path> rp;
+      unsigned lead = (unsigned)((k.size() + n + ps.size()) % 3);
+      how = "view(" + std::to_string(n) + " elements" + (lead ? ", from a path remainder" : "") + ")";
       // a view creates nothing until something is assigned through it
-      metatype *v = mpt_config_global(bp);
+      metatype *v = openView(c, bs, bsep, lead);
       VP_CHECK(c, v, "view-null", "mpt_config_global(%s) returned NULL", show(Key(k.begin(), k.begin() + n)).c_str());
       config *vc = 0;
       int cr = mvt(v)->convert((convertable *)v, TypeConfigPtr, &vc);
@@ -321,9 +339,9 @@ static void step(Ctx &c, Store &s, std::vector<Key> &pool) {
       size_t n = 1 + c.pick(k.size() - 1);
       bs = join(k, sep, 0, n);
       rs = join(k, sep, n);
-      CObj<path> bp;
-      setPath(bp, bs, sep);
-      view = mpt_config_global(bp);
+      unsigned lead = (unsigned)((k.size() + n + ps.size()) % 3);
+      if (lead) route = "view (from a path remainder)";
+      view = openView(c, bs, sep, lead);
       VP_CHECK(c, view, "view-null", "mpt_config_global returned NULL");
       int cr = mvt(view)->convert((convertable *)view, TypeConfigPtr, &target);
       VP_CHECK(c, cr >= 0 && target, "view-null", "view does not convert to a config interface (%d)", cr);
